@@ -333,10 +333,15 @@ func hook(m *am.Machine, id string) {
 	if !ok {
 		return
 	}
-	s := v.(*sched)
-	if s.disposed.Load() {
+	v.(func(string))(id)
+}
+
+func (s *sched) onPoint(id string) {
+	if s.disposed.Load() || strings.HasPrefix(id, "dd:") {
 		return
 	}
+	m := s.m
+	_ = m
 	gid := goid()
 	s.mu.Lock()
 	t := s.byGo[gid]
@@ -575,7 +580,7 @@ func Exec(c Case) *Run {
 			return run
 		}
 	}
-	registry.Store(m, s)
+	registry.Store(m, s.onPoint)
 	defer registry.Delete(m)
 	run.Lines = append(run.Lines, "qp init 1")
 	run.Obs = append(run.Obs, "ok")
